@@ -6,4 +6,7 @@ Extraction Language OCaml.
 Extraction "../ocaml/c13_model.ml" bz zb secp_n secp_p secp_pub der_enc der_dec is_strict_der lib_der_dec lib_parse
   spec_parse lib_parse_prefix der64 lax_der lib_sign lib_sign_upper lib_nonce_upper lib_sign_prefix lib_verify spec_verify spec_sign lib_pub_point lib_pub_point_lax lib_verify_key spec_verify_key coords_reduced
   rfc6979_nonce lib_nonce lib_digest lib_z ecdsa_sign ecdsa_verify ecdsa_low_s ser_point_compressed ser_point_uncompressed
-  lib_sign_req lib_sign_session lib_verify_step lib_verify_step_prefix lib_verify_arg lib_key_arg lib_new_obj obj_verify lib_verify_session stateless_step.
+  lib_sign_req lib_sign_session lib_verify_step lib_verify_step_prefix lib_verify_arg lib_key_arg lib_new_obj obj_verify lib_verify_session stateless_step
+  arg_meaning unhex py_fromhex lib_to_hexstring lib_txid_set c_digest eff_digest dg_via_verify dg_via_set sig_of_form key_of_form
+  lib_verify_forms lib_verify_fkey lib_verify_step_forms lib_create_text lib_sign_forms lib_sign_req_f lib_sign_session_forms
+  lib_parse_forms key_of_fkey step_of_form lib_new_obj_forms lib_verify_session_forms.
